@@ -4,6 +4,7 @@ import Kdf.Model.Cache
 ```
 new <cap>
 get <key> | insert <idx> | put <idx> | discard <idx>
+release                 -- cache_release; afterwards only put/discard of referenced entries, `new` once it is freed
 ```
 After every operation one line:
 `> <result> U=.. GB=.. B=.. P=.. GP=.. F=.. dp=<dprobe> h=<hits> m=<misses> E=<i:key:ref:buf ...>`
@@ -32,6 +33,26 @@ def showState (c : Cache) : String :=
 def showOut : Out → String
   | .busy => "busy" | .entry i v => s!"entry:{i}:{if v then 1 else 0}" | .done => "done"
 
+def showLife (what : String) (l : Life) : String :=
+  let refs := (List.range l.refs.length).filterMap (fun i => if l.refs.getD i 0 = 0 then none else some s!"{i}:{l.refs.getD i 0}")
+  s!"> {what} freed={if l.freed then 1 else 0} refs={",".intercalate refs}"
+
+/-- a released cache: only `put` / `discard` of referenced entries, until it is freed -/
+partial def lifeLoop (h : IO.FS.Stream) (l : Life) (k : IO Unit) : IO Unit := do
+  if l.freed then k else
+  let line ← h.getLine
+  if line.isEmpty then return ()
+  let ws := (line.trimAscii.toString.splitOn " ").filter (· ≠ "")
+  match ws with
+  | ["new", _] => IO.println "> PROTO new-in-orphan-mode"; k       -- the generator never does this
+  | [op, e] =>
+    let i := e.toNat!
+    if (op = "put" ∨ op = "discard") ∧ l.refs.getD i 0 ≠ 0 then
+      let l' := l.drop i
+      IO.println (showLife "orphan" l'); lifeLoop h l' k
+    else do IO.println "> bad-op"; lifeLoop h l k
+  | _ => IO.println "> bad-op"; lifeLoop h l k
+
 partial def loop (h : IO.FS.Stream) (c : Cache) (dead : Bool) : IO Unit := do
   let line ← h.getLine
   if line.isEmpty then return ()
@@ -44,6 +65,12 @@ partial def loop (h : IO.FS.Stream) (c : Cache) (dead : Bool) : IO Unit := do
       | .error (.proto w) => IO.println s!"> PROTO {w}"; loop h c true
   match ws with
   | ["new", cap] => let c' := flush cap.toNat!; IO.println s!"> done {showState c'}"; loop h c' false
+  | ["release"] =>
+    if dead then IO.println "> dead"; loop h c true
+    else
+      let l : Life := ({ refs := (List.range (2*c.cap)).map (fun i => (c.ent i).refcnt) } : Life).release
+      IO.println (showLife "released" l)
+      lifeLoop h l (loop h c true)
   | ["get", k] => doOp (.get k.toNat!)
   | ["insert", e] => doOp (.insert e.toNat!)
   | ["put", e] => doOp (.put e.toNat!)
